@@ -845,6 +845,27 @@ class Gen:
             m = len(env[k])
             return dict(t="lin", m=n, n=m, rows=[self.vec(m, -1, 1) for _ in range(n)], a=dict(t="var", k=k, n=m))
         c = r.random()
+        if c < 0.12:
+            # signed sums of scalings / diagonals / dense maps of ONE inner operator: SumOperator.make merges the ScalingOperators,
+            # absorbs the factor into a (possibly negated) DiagonalOperator and combines DiagonalOperators
+            x = self.linear(n, env, depth - 2) if r.random() < 0.4 else (
+                dict(t="var", k=r.choice(keys_n), n=n) if keys_n else self.linear(n, env, 0))
+
+            def term():
+                cc = r.random()
+                if cc < 0.35:
+                    return dict(t="scale", c=r.choice([-2.0, -1.0, -0.5, 0.5, 2.0, 3.0]), a=x)
+                if cc < 0.7:
+                    return dict(t="mulc", d=self.vec(n, nz=True), a=x)
+                if cc < 0.85:
+                    return x
+                return dict(t="lin", m=n, n=n, rows=[self.vec(n, -1, 1) for _ in range(n)], a=x)
+            t = term()
+            if r.random() < 0.3:
+                t = dict(t="scale", c=-1.0, a=t)
+            for _ in range(r.choice([1, 2, 2, 3])):
+                t = dict(t=r.choice(["add", "sub", "sub"]), a=t, b=term())
+            return t
         if c < 0.45:
             t = self.linear(n, env, depth - 1)
             for _ in range(r.choice([1, 1, 2])):
@@ -921,6 +942,60 @@ class Gen:
             if np.all(np.abs(vb) < 2.5):
                 return dict(t="varcov", n=n, a=a, b=b)
         return None
+
+    def mdconst_case(self, max_nodes=18):
+        """multi-domain TARGETS whose components depend on separate input keys, combined by products / sums / differences of
+        multi-domain operators: for most subsets of constant keys some target keys are entirely constant (the constant-output part
+        of the simplification: ConstCollector.mult / .add, both target kinds) while others stay variable"""
+        r = self.rng
+        for _ in range(80):
+            ks = r.sample(["a", "b", "c"], r.choice([2, 3]))
+            env = {k: np.array(self.vec(r.choice([1, 2, 3]))) for k in ks}
+            tk = r.sample(["p", "q", "r"], r.choice([2, 2, 3]))
+            sizes = {k: r.choice([1, 2, 3]) for k in tk}
+            self.space = r.choice(["U", "U", "R"])
+
+            def md(depth):
+                t = None
+                for k in tk:
+                    dep = r.sample(ks, 1 if r.random() < 0.75 else 2)
+                    leaf = dict(t="putKey", k=k, a=self.single(sizes[k], {kk: env[kk] for kk in dep}, depth))
+                    if r.random() < 0.25:
+                        leaf = dict(t="scale", c=r.choice([-2.0, -1.0, 0.5, 3.0]), a=leaf)
+                    t = leaf if t is None else dict(t=r.choice(["add", "add", "sub"]), a=t, b=leaf)
+                return t
+            t = md(r.choice([0, 1, 1, 2]))
+            for _ in range(r.choice([1, 1, 1, 2])):
+                t = dict(t=r.choice(["mul", "mul", "add", "sub"]), a=t, b=md(r.choice([0, 0, 1])))
+            c = r.random()
+            if c < 0.25:
+                t2 = self.ptw_node(t, env)
+                t = t2 if t2 is not None else t
+            elif c < 0.4:
+                t = dict(t="addcm", C={k: self.vec(n) for k, n in sizes.items()}, neg=r.random() < 0.5, a=t)
+            elif c < 0.55:
+                t = dict(t="mulcm", C={k: self.vec(n, nz=True) for k, n in sizes.items()}, a=t)
+            elif c < 0.65:
+                t = dict(t="scale", c=r.choice([-1.0, -0.5, 2.0]), a=t)
+            c = r.random()
+            if c < 0.2:
+                # extract one key again (single-domain target above a multi-domain product)
+                t = dict(t="getKey", k=r.choice(tk), a=t)
+            elif c < 0.35:
+                # an energy above two extracted keys
+                k1, k2 = r.sample(tk, 2)
+                if sizes[k1] == sizes[k2]:
+                    t = dict(t="vdot", a=dict(t="getKey", k=k1, a=t), b=dict(t="getKey", k=k2, a=t))
+            if size(t) > max_nodes or size(t) < 3:
+                continue
+            out = pyeval(t, env)
+            if not all(_ok_all(v) for v in out.values()):
+                continue
+            if model_cost(ship(strip(t)), sum(len(v) for v in env.values()), True) > COST_LIMIT:
+                continue
+            return dict(indom={k: len(v) for k, v in env.items()}, x={k: fl(v) for k, v in env.items()}, expr=strip(t),
+                        wm=r.random() < 0.5, space=self.space)
+        raise RuntimeError("generator exhausted")
 
     def case(self, max_nodes=16):
         r = self.rng
